@@ -140,7 +140,10 @@ func (g *gen) decoys(fi int, post bool) []*item {
 		}
 		out = append(out, g.item(kind, f))
 	}
-	_ = post
+	if post && r.Chance(1, 4) {
+		// right address, foreign transaction ID, records of either type: unusable, and nothing of it may show up
+		out = append(out, g.item("wrongid", fam(r.Intn(2))))
+	}
 	return out
 }
 
